@@ -2,6 +2,7 @@ package main
 
 import (
 	"fmt"
+	"go/types"
 
 	"golang.org/x/tools/go/ssa"
 )
@@ -12,6 +13,15 @@ func (in *Interp) nondet(kind string, s Sort) *Term {
 
 func (in *Interp) nondetSfx(kind string, s Sort, sfx string) *Term {
 	in.nondetN++
+	if in.tape != nil {
+		i := len(in.ex.nondets)
+		if i >= len(in.tape) {
+			in.unsupported("concrete tape exhausted")
+		}
+		c := Const(s, in.tape[i].Val)
+		in.ex.nondets = append(in.ex.nondets, nondetRec{kind: kind, t: c})
+		return c
+	}
 	name := fmt.Sprintf("nd%d_%s%s", len(in.ex.nondets), kind, sfx)
 	v := NewVar(name, s)
 	in.ex.nondets = append(in.ex.nondets, nondetRec{kind: kind, t: v})
@@ -110,6 +120,47 @@ func (in *Interp) harnessAPI(fn *ssa.Function, a []Value) (Value, bool) {
 			in.ex.knowns = append(in.ex.knowns, knownClass{id: id, cond: term(a[1])})
 		}
 		return nil, true
+	case "vKnownNext":
+		id, _ := a[0].(StringV).concrete()
+		if in.ex.openKnown[id] {
+			in.ex.knowns = append(in.ex.knowns, knownClass{id: id, cond: term(a[1]), once: true})
+		}
+		return nil, true
+	case "vHavoc":
+		iv := a[0].(IfaceV)
+		p := iv.v.(Ptr)
+		c := in.resolve(p)
+		st, ok := under(c.t).(*types.Struct)
+		if !ok {
+			in.unsupported("vHavoc of non-struct")
+		}
+		for i := 0; i < st.NumFields(); i++ {
+			b, ok := under(st.Field(i).Type()).(*types.Basic)
+			if !ok {
+				continue
+			}
+			switch {
+			case b.Info()&types.IsInteger != 0:
+				w := intWidth(b.Kind())
+				in.storeCell(c.kids[i], in.nondet(fmt.Sprintf("u%d", w), BV(w)))
+			case b.Kind() == types.Float32:
+				in.storeCell(c.kids[i], FFromBV(in.nondet("u32", BV(32))))
+			case b.Kind() == types.Float64:
+				in.storeCell(c.kids[i], FFromBV(in.nondet("u64", BV(64))))
+			case b.Kind() == types.Bool:
+				v := in.nondet("u8", BV(8))
+				in.storeCell(c.kids[i], Ne(Extract(v, 0, 0), BVConst(1, 0)))
+			}
+		}
+		return nil, true
+	case "vFieldName":
+		iv := a[0].(IfaceV)
+		t := iv.t
+		if pt, ok := under(t).(*types.Pointer); ok {
+			t = pt.Elem()
+		}
+		st := under(t).(*types.Struct)
+		return constString(st.Field(int(term(a[1]).cv)).Name()), true
 	case "vConcretize":
 		t := term(a[0])
 		return Const(t.sort, in.ex.Choose(t)), true
